@@ -155,7 +155,9 @@ def presentations(draw, permute=True):
     else:
         tr = gc.ffloat(-5.0, 5.0)
     return {"quat": draw(st.lists(gc.ffloat(-1.0, 1.0), min_size=4, max_size=4)), "trans": [draw(tr) for _ in range(3)],
-            "perm": draw(seeds) if permute else None, "noise_seed": draw(seeds), "sbc_seed": draw(st.integers(0, 10 ** 6))}
+            "perm": draw(seeds) if permute else None, "noise_seed": draw(seeds), "sbc_seed": draw(st.integers(0, 10 ** 6)),
+            # one presentation in three carries what files and workflows attach to an Atoms object (FixAtoms on a subset, tags, ...)
+            "payload": draw(st.one_of(st.none(), st.none(), seeds))}
 
 
 def present(s, p, noise):
@@ -174,4 +176,7 @@ def present(s, p, noise):
     if p.get("perm") is not None:
         perm = np.random.RandomState(p["perm"]).permutation(n)
         s = s[perm]
+    if p.get("payload") is not None:
+        s.set_constraint()
+        gc.attach_payload(s, p["payload"])
     return s, perm
